@@ -203,6 +203,86 @@ impl<K: KeyT, V: ValT> World<K, V> {
         Ok(())
     }
 
+    /// Logic-error keys: the models mean nothing, only structure is judged. Every object the
+    /// collections hand out must be alive, no object may be stored twice (it would be dropped
+    /// twice), and the cached iterator must agree with the old table (I1).
+    pub fn chaos_structural(&mut self, op_index: usize, op_kind: &'static str) -> Vec<Anomaly> {
+        let mut out = Vec::new();
+        let mut err = |class: &'static str, detail: String| out.push(Anomaly { class, family: Family::Internal, op_index, op_kind, detail });
+        let mut ids: BTreeSet<u64> = BTreeSet::new();
+        for (mi, slot) in self.maps.iter().enumerate() {
+            let st = slot.m.verif_state();
+            if st.split && (st.cursor_remaining != st.old_len || !st.cursor_exact) {
+                err("I1-cursor", format!("map {} (logic-error keys): cached iterator remaining={} old_len={} exact={}", mi, st.cursor_remaining, st.old_len, st.cursor_exact));
+                return out;
+            }
+            let r = call(|| {
+                let len = sut(|| slot.m.len());
+                let mut seen: Vec<(u64, u64)> = Vec::new();
+                for (k, v) in sut(|| slot.m.iter()) {
+                    k.check("iter key (logic-error keys)");
+                    v.check("iter value (logic-error keys)");
+                    seen.push((k.oid(), v.oid()));
+                    if seen.len() > len + 8 {
+                        break;
+                    }
+                }
+                (len, seen)
+            });
+            match r.result {
+                Ok((len, seen)) => {
+                    if seen.len() != len {
+                        err("chaos-len", format!("map {}: len()={} but iteration yields {}", mi, len, seen.len()));
+                    }
+                    for (a, b) in seen {
+                        for id in [a, b] {
+                            if id != 0 && !ids.insert(id) {
+                                err("ledger", format!("map {} (logic-error keys): object {} is stored twice", mi, id));
+                            }
+                        }
+                    }
+                }
+                Err(p) => err("chaos-panic", format!("map {}: panic while iterating: {:?}", mi, p)),
+            }
+        }
+        for (si, slot) in self.sets.iter().enumerate() {
+            let st = slot.s.verif_state();
+            if st.split && (st.cursor_remaining != st.old_len || !st.cursor_exact) {
+                err("I1-cursor", format!("set {} (logic-error keys): cached iterator remaining={} old_len={} exact={}", si, st.cursor_remaining, st.old_len, st.cursor_exact));
+                return out;
+            }
+            let r = call(|| {
+                let len = sut(|| slot.s.len());
+                let mut seen: Vec<u64> = Vec::new();
+                for k in sut(|| slot.s.iter()) {
+                    k.check("set iter (logic-error keys)");
+                    seen.push(k.oid());
+                    if seen.len() > len + 8 {
+                        break;
+                    }
+                }
+                (len, seen)
+            });
+            match r.result {
+                Ok((len, seen)) => {
+                    if seen.len() != len {
+                        err("chaos-len", format!("set {}: len()={} but iteration yields {}", si, len, seen.len()));
+                    }
+                    for id in seen {
+                        if id != 0 && !ids.insert(id) {
+                            err("ledger", format!("set {} (logic-error keys): object {} is stored twice", si, id));
+                        }
+                    }
+                }
+                Err(p) => err("chaos-panic", format!("set {}: panic while iterating: {:?}", si, p)),
+            }
+        }
+        for e in ctx::take_errors() {
+            err("ledger", e);
+        }
+        out
+    }
+
     /// After an interrupted call: make every model hold what *lookups* find (not what iteration
     /// yields), so that the iterators are then judged against an independent view (C08).
     pub fn adopt_by_lookup(&mut self) -> Result<(), String> {
